@@ -211,7 +211,8 @@ def prop_case(draw, shard, tier, family="propagators"):
     # NonePropagator.propagate(timedelta) stores the timedelta as the date (a C08 matter, not a label one)
     if arg == "timedelta" and (kind == "none" or not gd.leap_free(us, us + dt, leaps)):
         arg = "date"
-    case = dict(us=us, dt=dt, X=X, Y=Y, kind=kind, arg=arg)
+    case = dict(us=us, dt=dt, X=X, Y=Y, kind=kind, arg=arg,
+                usage=draw(st.sampled_from(["plain", "plain", "shared-propagator", "relabel-after-first-use", "by-name"])))
     if kind in ("sgp4", "sgp4beta"):
         case["tle"] = draw(tle_elements())
     elif kind == "kepler-other-body":
@@ -270,14 +271,35 @@ def run_prop(case, X, Y, X2=None):
         p = Sgp4Beta()
         p.orbit = tle_orbit(case["tle"], epoch, None)
         res = p.propagate(arg)
-    elif kind == "kepler":
+    elif kind in ("kepler", "j2"):
+        from beyond.propagators.j2 import J2
         from beyond.propagators.kepler import Kepler
 
-        res = cart_orbit(case["el"], epoch, Kepler()).propagate(arg)
-    elif kind == "j2":
-        from beyond.propagators.j2 import J2
-
-        res = cart_orbit(case["el"], epoch, J2()).propagate(arg)
+        klass = Kepler if kind == "kepler" else J2
+        usage = case.get("usage", "plain")
+        if usage == "by-name":
+            # the propagator named, not instantiated
+            res = cart_orbit(case["el"], epoch, klass.__name__).propagate(arg)
+        elif usage == "relabel-after-first-use":
+            # the orbit is used once, then its epoch is replaced in place by the same instant under the label Y
+            orb = cart_orbit(case["el"], date_of(us, "UTC"), klass())
+            orb.propagate(arg)
+            orb.date = epoch
+            res = orb.propagate(arg)
+        elif usage == "shared-propagator":
+            # ONE propagator object serves this orbit and another one (other plane, UTC epoch) in turns
+            shared = klass()
+            other_el = dict(case["el"], raan=(case["el"]["raan"] + 0.3) % (2 * math.pi))
+            mine, other = cart_orbit(case["el"], epoch, shared), cart_orbit(other_el, date_of(us, "UTC"), shared)
+            first = np.asarray(mine.propagate(arg).base, float)
+            theirs = np.asarray(other.propagate(arg).base, float)
+            res = mine.propagate(arg)
+            alone = np.asarray(cart_orbit(other_el, date_of(us, "UTC"), klass()).propagate(arg).base, float)
+            if not np.array_equal(first, np.asarray(res.base, float)) or not np.array_equal(theirs, alone):
+                raise Violation("shared-propagator", f"{kind}: one propagator object serving two orbits in turns: the answers "
+                                                     f"change with the order of the requests (epoch {epoch})")
+        else:
+            res = cart_orbit(case["el"], epoch, klass()).propagate(arg)
     elif kind == "none":
         from beyond.propagators.none import NonePropagator
 
@@ -378,6 +400,8 @@ def check_prop(case):
                                           mu=go.MU[case["body"]] if kind == "kepler-other-body" else None))
         same_instant(f"{desc} [{k}]", gdate, rdate, labels)
     cls = [f"kind:{kind}", f"eop:{t3.cfg()}", f"X:{X}", f"Y:{Y}", f"arg:{case['arg']}"] + clone_classes(case)
+    if kind in ("kepler", "j2") and case.get("usage", "plain") != "plain":
+        cls.append(f"usage:{case['usage']}")
     if straddle(us, (Y,)) or straddle(us + dt, (X,)):
         cls.append("labels-straddle-0h")
     if abs(dt) > US_DAY:
@@ -672,7 +696,8 @@ def ccsds_case(draw, shard, tier):
     others = [iers.SCALES[draw(st.integers(0, 5))] for _ in range(n)]
     if kind in ("opm", "omm", "oem") and Y == "UTC":
         Y = iers.SCALES[draw(st.integers(1, 5))]
-    case = dict(us=us, kind=kind, n=n, step=step, Y=Y, others=others, fmt=draw(st.sampled_from(["kvn", "xml"])))
+    case = dict(us=us, kind=kind, n=n, step=step, Y=Y, others=others, fmt=draw(st.sampled_from(["kvn", "xml"])),
+                via=draw(st.sampled_from(["dumps", "dumps", "dump-file"])))
     if kind == "omm":
         case["tle"] = draw(tle_elements())
     else:
@@ -721,7 +746,17 @@ def check_ccsds(case):
         obj = Ephem(orbs)
         obj.name, obj.cospar_id = "VERIF", "1998-067A"
         dates = [o.date for o in orbs]
-    txt = dumps(obj, fmt=fmt)
+    if case.get("via", "dumps") == "dump-file":
+        import io
+
+        from beyond.io.ccsds import dump, load
+
+        buf = io.StringIO()
+        dump(obj, buf, fmt=fmt, originator="VERIF")
+        txt = buf.getvalue()
+        loads = lambda text: load(io.StringIO(text))  # noqa: E731  (the file-object entry points)
+    else:
+        txt = dumps(obj, fmt=fmt)
     m = re.search(r"TIME_SYSTEM\s*=\s*(\S+)|<TIME_SYSTEM>([^<]+)<", txt)
     system = (m.group(1) or m.group(2)) if m else None
     what = f"{kind}/{fmt} with dates labelled {sorted(set(labels))} (first {dates[0]})"
@@ -748,8 +783,8 @@ def check_ccsds(case):
                             f"{what}: date #{k} {d} comes back as {g} ({off} us away)", off=off)
         if str(g.scale) != Y:
             raise Violation("ccsds-time-system", f"{what}: date #{k} read back labelled {g.scale}")
-    return dict(nt=True, cls=[f"eop:{t3.cfg()}", f"kind:{kind}", fmt, f"Y:{Y}", "mixed-labels" if mixed else "one-label"],
-                ratio=worst / tol if tol else 0.0)
+    return dict(nt=True, cls=[f"eop:{t3.cfg()}", f"kind:{kind}", fmt, f"Y:{Y}", "mixed-labels" if mixed else "one-label",
+                              f"via:{case.get('via', 'dumps')}"], ratio=worst / tol if tol else 0.0)
 
 
 # ------------------------------------------------------------------ CCSDS messages made of several parts
@@ -956,7 +991,7 @@ def check_events(case):
 def utils_case(draw, shard, tier):
     us = draw(gd.instants(t3.leap_days(), lo_mjd=gd.LO_MJD + 10, hi_mjd=gd.HI_MJD - 10))
     X = iers.SCALES[draw(st.integers(1, 5))]
-    op = draw(st.sampled_from(["raan2ltan", "ltan2raan", "beta", "beta-moon"]))
+    op = draw(st.sampled_from(["raan2ltan", "ltan2raan", "orb2ltan", "beta", "beta-moon"]))
     return dict(us=us, X=X, op=op, type=draw(st.sampled_from(["mean", "true"])), raan=draw(go.uniform(0, 6.283)),
                 ltan=draw(go.uniform(0, 86400)), el=draw(go.elements(hyperbolic=False, emax_ell=0.5, rp_range=(1.05, 4.0))))
 
@@ -978,12 +1013,19 @@ def check_utils(case):
             out[L] = float(ltan.raan2ltan(d, case["raan"], case["type"]))
         elif op == "ltan2raan":
             out[L] = float(ltan.ltan2raan(d, case["ltan"], case["type"]))
+        elif op == "orb2ltan":
+            # the wrapper taking an orbit (held in TEME here: it converts to EME2000 itself)
+            o = cart_orbit(case["el"], d, None).copy(frame="TEME")
+            out[L] = float(ltan.orb2ltan(o, case["type"]))
+            direct = float(ltan.raan2ltan(d, float(cart_orbit(case["el"], d, None).copy(form="keplerian").raan), case["type"]))
+            if abs((out[L] - direct + 43200) % 86400 - 43200) > 1e-6:
+                raise Violation("orb2ltan-wrapper", f"orb2ltan(orbit at {d}) = {out[L]!r}, raan2ltan of its RAAN = {direct!r}")
         else:
             out[L] = float(beta(cart_orbit(case["el"], d, None), "Sun" if op == "beta" else "Moon"))
     if not all(math.isfinite(v) for v in out.values()):
         raise Violation("non-finite", f"{op}: {out}")
     diff = out[X] - out["UTC"]
-    if op == "raan2ltan":
+    if op in ("raan2ltan", "orb2ltan"):
         diff = (diff + 43200) % 86400 - 43200
         tol = 2e-4  # s: sidereal angle quantum (40 us of a double Julian date) + 2 us
     elif op == "ltan2raan":
